@@ -5,6 +5,12 @@
       taurex/contributions/cia.py            CIAContribution.prepare_each, contribute_cia, CIAContribution.contribute
       taurex/contributions/rayleigh.py       RayleighContribution.prepare_each
       taurex/contributions/absorption.py     AbsorptionContribution.prepare_each (cross-section mode), .prepare
+      taurex/contributions/contribution.py   Contribution.contribute
+      taurex/contributions/simpleclouds.py   SimpleCloudsContribution.contribute
+      taurex/model/transmission.py           path_integral (the loop over the contribution LIST with its break),
+                                             compute_path_length_old, compute_path_length, compute_absorption
+      taurex/util/geometry.py                parallel_vector
+      taurex/model/simplemodel.py            SimpleForwardModel.model_contrib (the per-contribution loop and its dict)
   The theorems state, for EVERY carrier (induction over the loops, no algebra), that each regenerated definition is the
   model function of `TaurexModel/Sigma.lean` / `TaurexModel/Transmission.lean` that the C03 theorems are about and
   `driver_c03` executes.
@@ -19,6 +25,7 @@
 import TaurexModel.Gen.SrcC03
 import TaurexModel.Sigma
 import TaurexModel.Transmission
+import TaurexModel.Geometry
 import Proofs.C01SrcLemmas
 set_option linter.unusedSectionVars false
 
@@ -204,6 +211,285 @@ theorem src_cia_contribute (s e off l : Nat) (dens path : Nat → α) (tau sigma
   unfold Gen.SrcC03.cia_contribute
   by_cases h : 0 < total <;> simp [h]
 
+/-! ### the loop over the LIST of contributions: `path_integral` and what it calls (C01's specs, re-translated here) -/
+
+/-- `Contribution.contribute` hands `self.sigma_xsec`, `self._ngrid` to `contribute_tau` -/
+theorem src_contribution_contribute (s e off l : Nat) (dens path : Nat → α) (tau sigma : Nat → Nat → α) (ngrid : Nat) :
+    Gen.SrcC03.contribution_contribute s e off l dens tau path ngrid sigma
+      = Gen.SrcC03.contribute_tau s e off sigma dens path ngrid l tau := rfl
+
+/-- `SimpleCloudsContribution.contribute`: `tau[layer] += self.sigma_xsec[layer, :]` — kind `layerOnly` (the whole row) -/
+theorem src_clouds_contribute (n l nL nW : Nat) (sigma : Nat → Nat → α) (dens path : Nat → α) (tau : Nat → Nat → α) :
+    Gen.SrcC03.clouds_contribute l tau nL nW sigma
+      = fun i j => if i = l then addContrib ⟨.layerOnly, sigma⟩ n path dens l (tau l) j else tau i j := rfl
+
+/-! ### transit depth and chord lengths -/
+
+/-- `compute_absorption(tau, dz)`: the pair (`depth` per wavenumber, `exp(-tau)`) -/
+theorem src_compute_absorption (n nW : Nat) (rp rs : α) (z dz : Nat → α) (tau : Nat → Nat → α) :
+    Gen.SrcC03.compute_absorption tau dz n nW rp rs z
+      = (fun wn => depth rp rs n z dz (fun l => trans (tau l wn)), fun l wn => trans (tau l wn)) := rfl
+
+/-- `compute_path_length_old(dz)`: the list, layer by layer, of the chord segments `chordOld` (as whole functions of the
+    segment index: also the slice arithmetic `k[1:] = …[layer+1:]`, `k[1:] -= …[layer:nLayers-1]` is matched) -/
+theorem src_compute_path_length_old (n : Nat) (rp : α) (z dz : Nat → α) :
+    Gen.SrcC03.compute_path_length_old dz n rp z = (List.range n).map (fun l => chordOld rp z dz l) := by
+  unfold Gen.SrcC03.compute_path_length_old
+  simp only [Nat.sub_zero]
+  rw [foldl_append_singleton]
+  simp only [List.nil_append]
+  congr 1
+  funext l k
+  unfold chordOld oldHalf oldMid oldP sq
+  cases k with
+  | zero => simp
+  | succ k =>
+    have e3 : l + 1 + k = l + (k + 1) := by omega
+    simp [e3]
+
+/-- the slices combined element-wise in `compute_path_length_old` have equal lengths (what numpy requires; hence no
+    length-1 slice is silently broadcast) -/
+theorem src_compute_path_length_old_shapes (n : Nat) (rp : α) (z dz : Nat → α) :
+    Gen.SrcC03.compute_path_length_old_shapes dz n rp z := by
+  unfold Gen.SrcC03.compute_path_length_old_shapes
+  refine ⟨?_, ?_, ?_⟩ <;> intros <;> omega
+
+/-! ### new path method: what is handed to the 3-D geometry -/
+
+/-- a `(3, n)` numpy array whose columns are the vectors `f j` -/
+def rows (f : Nat → Geometry.V3 α) : Nat → Nat → α :=
+  fun r j => if r = 1 then (f j).y else if r = 0 then (f j).x else (f j).z
+
+/-- `parallel_vector(R, alt, max_alt)` (for an array `alt`): column `j` of `viewer` / `tangent` is the model's
+    `Geometry.parallelVector R alt[j] max_alt` — in particular the ray origin `-(R + 2·max_alt)` -/
+theorem src_parallel_vector (R maxAlt : α) (alt : Nat → α) (nA : Nat) :
+    Gen.SrcC03.parallel_vector R alt maxAlt nA
+      = (rows (fun j => (Geometry.parallelVector R (alt j) maxAlt).1),
+         rows (fun j => (Geometry.parallelVector R (alt j) maxAlt).2)) := by
+  unfold Gen.SrcC03.parallel_vector rows Geometry.parallelVector
+  refine Prod.ext ?_ ?_ <;> funext r j <;> by_cases h1 : r = 1 <;> by_cases h0 : r = 0 <;> simp [h1, h0]
+
+/-- `TransmissionModel.compute_path_length`: the rows come from `planet.compute_path_length` (→
+    `compute_path_length_3d`, a parameter) called with the altitude boundaries and, for tangent layer `l`, the line of
+    sight `parallelVector rp (z[l] + dz[l]/2) (max of the boundaries)` — the inputs of the model's
+    `Geometry.layerDists` -/
+theorem src_compute_path_length (n : Nat) (rp : α) (zb z dz : Nat → α)
+    (planetPaths : (Nat → α) → (Nat → Nat → α) → (Nat → Nat → α) → List (Nat → α)) :
+    Gen.SrcC03.compute_path_length dz n planetPaths rp zb z
+      = planetPaths zb
+          (rows (fun l => (Geometry.parallelVector rp (z l + dz l / 2) (Geometry.arrMax n zb)).1))
+          (rows (fun l => (Geometry.parallelVector rp (z l + dz l / 2) (Geometry.arrMax n zb)).2)) := by
+  unfold Gen.SrcC03.compute_path_length
+  simp only [src_parallel_vector]
+  rfl
+
+/-! ### the whole `path_integral` -/
+
+/-- what `contrib.contribute(self, s, e, off, layer, density, tau, path_length=dl)` executes (Python's dynamic
+    dispatch) for a prepared contribution of each model kind: `Contribution.contribute` (absorption, Rayleigh, hazes:
+    kernel `contribute_tau`), `CIAContribution.contribute`, `SimpleCloudsContribution.contribute`; `ngrid` is the
+    contributions' `self._ngrid` (= `wngrid.shape[0]`, set by `prepare`), `total` is `CIAContribution._total_cia` -/
+def dispatch (ngrid total nL : Nat) (c : Contrib α) (s e off layer : Nat) (dens : Nat → α) (tau : Nat → Nat → α)
+    (path : Nat → α) : Nat → Nat → α :=
+  match c.kind with
+  | .lin => Gen.SrcC03.contribution_contribute s e off layer dens tau path ngrid c.sigma
+  | .sq => Gen.SrcC03.cia_contribute s e off layer dens tau path ngrid c.sigma total
+  | .layerOnly => Gen.SrcC03.clouds_contribute layer tau nL ngrid c.sigma
+
+/-- one dispatched call, as `path_integral` makes it: rows other than `l` are untouched, row `l` below `nwn` is
+    `addContrib` -/
+theorem dispatch_row (n nwn total : Nat) (ht : 0 < total) (c : Contrib α) (l : Nat) (dens path : Nat → α)
+    (tau : Nat → Nat → α) :
+    (∀ i j, i ≠ l → dispatch nwn total n c 0 (n - l) l l dens tau path i j = tau i j) ∧
+    (∀ j < nwn, dispatch nwn total n c 0 (n - l) l l dens tau path l j = addContrib c n path dens l (tau l) j) := by
+  obtain ⟨kind, sigma⟩ := c
+  cases kind
+  · simp only [dispatch, src_contribution_contribute, src_contribute_tau_call]
+    exact ⟨fun i j hi => by simp [hi], fun j hj => by simp [hj]⟩
+  · simp only [dispatch, src_cia_contribute, if_pos ht, src_contribute_cia_call]
+    exact ⟨fun i j hi => by simp [hi], fun j hj => by simp [hj]⟩
+  · simp only [dispatch, src_clouds_contribute n l n nwn sigma dens path]
+    exact ⟨fun i j hi => by simp [hi], fun j _ => by simp⟩
+
+/-- the loop over the contribution list (with its break) on row `l` of the table -/
+theorem layer_loop (n nwn total : Nat) (ht : 0 < total) (l : Nat) (dens path : Nat → α) (cs : List (Contrib α))
+    (tau : Nat → Nat → α) :
+    (∀ i j, i ≠ l →
+      cutLoop (fun t : Nat → Nat → α => saturated nwn (t l))
+        (fun c t => dispatch nwn total n c 0 (n - l) l l dens t path) cs tau i j = tau i j) ∧
+    (∀ j < nwn,
+      cutLoop (fun t : Nat → Nat → α => saturated nwn (t l))
+        (fun c t => dispatch nwn total n c 0 (n - l) l l dens t path) cs tau l j
+        = tauCutFrom n nwn path dens l cs (tau l) j) := by
+  induction cs generalizing tau with
+  | nil => exact ⟨fun _ _ _ => rfl, fun _ _ => rfl⟩
+  | cons c cs ih =>
+    simp only [cutLoop, tauCutFrom]
+    cases hs : saturated nwn (tau l)
+    · simp only [Bool.false_eq_true, if_false]
+      have hd := dispatch_row n nwn total ht c l dens path tau
+      have h := ih (dispatch nwn total n c 0 (n - l) l l dens tau path)
+      refine ⟨fun i j hi => ?_, fun j hj => ?_⟩
+      · rw [h.1 i j hi, hd.1 i j hi]
+      · rw [h.2 j hj]
+        exact tauCutFrom_congr n nwn path dens l cs _ _ hd.2 j hj
+    · simp only [if_true]
+      exact ⟨fun _ _ _ => trivial, fun _ _ => trivial⟩
+
+/-- **`path_integral`, optical depth part**: for whatever list of chord rows `paths` the code computed, entry
+    `(l, wn)` of the returned `exp(-tau)` is the transmittance of the model's loop with the early exit, `tauCut`, and the
+    returned absorption is `depth` of these.  (`0 < total`: a CIA contribution, if present, has at least one pair.) -/
+theorem src_path_integral (n nwn total : Nat) (ht : 0 < total) (rp rs : α) (z dz dens : Nat → α)
+    (zb : Nat → α) (cs : List (Contrib α)) (newMethod : Bool)
+    (planetPaths : (Nat → α) → (Nat → Nat → α) → (Nat → Nat → α) → List (Nat → α)) :
+    let paths := if newMethod then Gen.SrcC03.compute_path_length dz n planetPaths rp zb z
+      else Gen.SrcC03.compute_path_length_old dz n rp z
+    let r := Gen.SrcC03.path_integral nwn cs (dispatch nwn total n) dz dens n newMethod planetPaths rp rs zb z
+    (∀ l < n, ∀ wn < nwn,
+        r.2 l wn = trans (tauCut n nwn (paths.getD l (fun _ => 0)) dens l cs wn)) ∧
+    (∀ wn < nwn,
+        r.1 wn = depth rp rs n z dz (fun l => trans (tauCut n nwn (paths.getD l (fun _ => 0)) dens l cs wn))) := by
+  intro paths r
+  -- the table after the loop over the layers
+  have key : ∀ l wn, l < n → wn < nwn →
+      (List.range' 0 n).foldl (fun (T : Nat → Nat → α) (l : Nat) =>
+          cutLoop (fun t : Nat → Nat → α => saturated nwn (t l))
+            (fun c t => dispatch nwn total n c 0 (n - l) l l dens t (paths.getD l (fun _ => 0))) cs T)
+        (fun _ _ => (0 : α)) l wn
+      = tauCut n nwn (paths.getD l (fun _ => 0)) dens l cs wn := by
+    intro l wn hl hwn
+    refine ((fold_layers n nwn _ (fun _ _ => (0 : α))
+      (fun l wn => tauCut n nwn (paths.getD l (fun _ => 0)) dens l cs wn) ?_ ?_) l wn).1 hl hwn
+    · intro l T i j hi
+      exact (layer_loop n nwn total ht l dens _ cs T).1 i j hi
+    · intro l T hT j hj
+      rw [(layer_loop n nwn total ht l dens _ cs T).2 j hj]
+      unfold tauCut
+      exact tauCutFrom_congr n nwn _ dens l cs _ _ (fun w _ => hT w) j hj
+  have hr : r = Gen.SrcC03.compute_absorption
+      ((List.range' 0 n).foldl (fun (T : Nat → Nat → α) (l : Nat) =>
+          cutLoop (fun t : Nat → Nat → α => saturated nwn (t l))
+            (fun c t => dispatch nwn total n c 0 (n - l) l l dens t (paths.getD l (fun _ => 0))) cs T)
+        (fun _ _ => (0 : α))) dz n nwn rp rs z := by
+    show Gen.SrcC03.path_integral nwn cs (dispatch nwn total n) dz dens n newMethod planetPaths rp rs zb z = _
+    unfold Gen.SrcC03.path_integral
+    simp only [← foldl_break]
+    cases newMethod <;> rfl
+  rw [hr, src_compute_absorption]
+  refine ⟨fun l hl wn hwn => ?_, fun wn hwn => ?_⟩
+  · simp only [key l wn hl hwn]
+  · simp only
+    exact depth_congr rp rs n z dz _ _ (fun l hl => by rw [key l wn hl hwn])
+
+end
+
+/-! ### `model_contrib`: every contribution run alone, the results in a dict keyed by the contribution's name -/
+
+/-- python `d[k] = v` on a dict kept in insertion order: an existing key keeps its position and gets the new value -/
+def dictSet {β : Type} (d : List (String × β)) (k : String) (v : β) : List (String × β) :=
+  if d.any (fun e => e.1 == k) then d.map (fun e => if e.1 == k then (k, v) else e) else d ++ [(k, v)]
+
+/-- `for c in cs: d[key c] = val c` -/
+def dictFill {ι β : Type} (key : ι → String) (val : ι → β) (cs : List ι) (d : List (String × β)) : List (String × β) :=
+  cs.foldl (fun d c => dictSet d (key c) (val c)) d
+
+theorem dictSet_keys_of_mem {β : Type} (d : List (String × β)) (k : String) (v : β) (h : k ∈ d.map (·.1)) :
+    (dictSet d k v).map (·.1) = d.map (·.1) := by
+  have hany : d.any (fun e => e.1 == k) = true := by
+    obtain ⟨e, he, hk⟩ := List.mem_map.1 h
+    exact List.any_eq_true.2 ⟨e, he, by simp [hk]⟩
+  unfold dictSet
+  rw [if_pos hany, List.map_map]
+  apply List.map_congr_left
+  intro e _
+  by_cases hk : e.1 == k
+  · simp only [Function.comp, hk, if_true]; exact (beq_iff_eq.1 hk).symm
+  · simp [Function.comp, hk]
+
+theorem dictSet_of_not_mem {β : Type} (d : List (String × β)) (k : String) (v : β) (h : k ∉ d.map (·.1)) :
+    dictSet d k v = d ++ [(k, v)] := by
+  have hany : ¬ d.any (fun e => e.1 == k) = true := by
+    intro ht
+    obtain ⟨e, he, hk⟩ := List.any_eq_true.1 ht
+    exact h (List.mem_map.2 ⟨e, he, beq_iff_eq.1 hk⟩)
+  unfold dictSet
+  rw [if_neg hany]
+
+/-- distinct names: the dict has one entry per contribution, in order -/
+theorem dictFill_nodup {ι β : Type} (key : ι → String) (val : ι → β) (cs : List ι) (d : List (String × β))
+    (hnd : (d.map (·.1) ++ cs.map key).Nodup) :
+    dictFill key val cs d = d ++ cs.map (fun c => (key c, val c)) := by
+  induction cs generalizing d with
+  | nil => simp [dictFill]
+  | cons c cs ih =>
+    have hc : key c ∉ d.map (·.1) := by
+      intro hmem
+      have := (List.nodup_append.1 hnd).2.2 _ hmem (key c) (by simp)
+      exact this rfl
+    unfold dictFill
+    rw [List.foldl_cons, dictSet_of_not_mem d (key c) (val c) hc]
+    have := ih (d ++ [(key c, val c)]) (by simpa [List.append_assoc] using hnd)
+    unfold dictFill at this
+    rw [this]
+    simp
+
+/-- a name that occurs twice (or is already in the dict) costs an entry: the dict ends up with fewer entries than there
+    were contributions (K4: `FlatMieContribution` and `LeeMieContribution` are both called 'Mie') -/
+theorem dictFill_length_lt {ι β : Type} (key : ι → String) (val : ι → β) (cs : List ι) (d : List (String × β))
+    (hbad : ¬ (d.map (·.1) ++ cs.map key).Nodup) (hd : (d.map (·.1)).Nodup) :
+    (dictFill key val cs d).length < d.length + cs.length := by
+  have hle : ∀ (cs : List ι) (d : List (String × β)), (dictFill key val cs d).length ≤ d.length + cs.length := by
+    intro cs
+    induction cs with
+    | nil => intro d; simp [dictFill]
+    | cons c cs ih =>
+      intro d
+      have h := ih (dictSet d (key c) (val c))
+      have hl : (dictSet d (key c) (val c)).length ≤ d.length + 1 := by
+        unfold dictSet; split <;> simp
+      unfold dictFill at h ⊢
+      rw [List.foldl_cons, List.length_cons]
+      omega
+  induction cs generalizing d with
+  | nil => simp at hbad; exact absurd hd hbad
+  | cons c cs ih =>
+    unfold dictFill
+    rw [List.foldl_cons, List.length_cons]
+    by_cases hc : key c ∈ d.map (·.1)
+    · have hl : (dictSet d (key c) (val c)).length = d.length := by
+        have := congrArg List.length (dictSet_keys_of_mem d (key c) (val c) hc)
+        simpa using this
+      have := hle cs (dictSet d (key c) (val c))
+      unfold dictFill at this
+      omega
+    · rw [dictSet_of_not_mem d (key c) (val c) hc]
+      have hd' : ((d ++ [(key c, val c)]).map (·.1)).Nodup := by
+        rw [List.map_append, List.nodup_append]
+        refine ⟨hd, by simp, ?_⟩
+        intro a ha b hb
+        simp at hb
+        subst hb
+        intro hab; subst hab; exact hc ha
+      have := ih (d ++ [(key c, val c)]) (by simpa [List.append_assoc] using hbad) hd'
+      unfold dictFill at this
+      simp at this ⊢
+      omega
+
+section
+variable {α : Type} [Add α] [Sub α] [Mul α] [Div α] [Neg α] [LT α] [LE α]
+  [DecidableLT α] [DecidableLE α] [OfNat α 0] [OfNat α 1] [OfNat α 2] [OfNat α 10] [Transc α]
+
+/-- `SimpleForwardModel.model_contrib()` (no `wngrid`): the native grid, and the dict filled by running the regenerated
+    `path_integral` on `[prepare c]` for every contribution `c` in turn, under the key `name (prepare c)` -/
+theorem src_model_contrib {ι : Type} (cs : List ι)
+    (contribute : ι → Nat → Nat → Nat → Nat → (Nat → α) → (Nat → Nat → α) → (Nat → α) → (Nat → Nat → α))
+    (dz dens : Nat → α) (n nW : Nat) (name : ι → String) (grid : Nat → α) (newMethod : Bool)
+    (planetPaths : (Nat → α) → (Nat → Nat → α) → (Nat → Nat → α) → List (Nat → α)) (prepare : ι → ι) (rp rs : α)
+    (zb z : Nat → α) :
+    Gen.SrcC03.model_contrib cs contribute dz dens n nW name grid newMethod planetPaths prepare rp rs zb z
+      = (grid, dictFill (fun c => name (prepare c))
+          (fun c => Gen.SrcC03.path_integral nW [prepare c] contribute dz dens n newMethod planetPaths rp rs zb z) cs []) :=
+  rfl
 end
 
 end Taurex.C03Src
